@@ -572,6 +572,72 @@ def r04_7(facts, res):
         raise BrokenCheck("R04-7: %d printers with optional fields (floor 6)" % st["instances"])
 
 
+def r04_8(facts, res):
+    """The XML declaration the printers write is an XMLDecl [23]: `<?xml` VersionInfo EncodingDecl? SDDecl? S? `?>` - in this
+    order.  Every printing path of the declaration block, with the stored languages in the holes, is included in the
+    production (automaton inclusion)."""
+    import xml10 as X
+    st = res.rule("R04-8", instances=0, paths=0)
+    holes = {"version": X.NT("VersionNum"), "encoding": X.NT("EncName"), "?yes_no": X.Alt(X.L("yes"), X.L("no"))}
+    target = e2.expand_spec(X.P, X.P["XMLDecl"], set())
+    for tr, m in (("std::fmt::Display", "fmt"), ("IndentedDisplay", "indented")):
+        f = facts.fn("xml_info::<XmlDocument as %s>::%s" % (tr, m))
+        blk = None
+        for n in walk(f["body"]):
+            if n.get("k") == "If" and n["cond"].get("k") == "Let" and \
+                    any(x.get("k") == "Field" and x.get("name") == "version" for x in walk(n["cond"]["init"])):
+                blk = n
+                break
+        if blk is None:
+            raise BrokenCheck("R04-8: %s has no `if let Some(version) = self.version` block" % f["path"])
+        bname = [q["name"] for q in walk(blk["cond"]["pat"]) if q.get("p") == "Bind"]
+        paths = print_paths(blk["then"], {b: "version" for b in bname})
+        st["instances"] += 1
+        for p in paths:
+            terms, bad, done = [], None, False
+            for tmpl, fields in p:
+                if tmpl == "@arm" or done:
+                    continue
+                pieces = re.split(r"(\{\})", tmpl)
+                fi = 0
+                for piece in pieces:
+                    if piece == "{}":
+                        fld = fields[fi] if fi < len(fields) else "?"
+                        fi += 1
+                        lang = holes.get(fld)
+                        if lang is None:
+                            bad = "hole filled from `%s`" % fld
+                            break
+                        terms.append(e2.expand_spec(X.P, lang, set()))
+                    elif piece:
+                        terms.append(("lit", piece))
+                if "?>" in tmpl:
+                    done = True
+                if bad:
+                    break
+            if not done and not bad:
+                continue      # a path that never closes the declaration (none expected)
+            st["paths"] += 1
+            key = "XmlDocument::%s|%s" % (m, "".join(t for t, _ in p if t != "@arm").split("?>")[0] + "?>")
+            if bad:
+                res.oblige(1, False)
+                res.add(Finding("R04-8", key, "%s: %s, for which no stored language is known" % (f["path"], bad), f["file"], f["line"], {}))
+                continue
+            printed = ("seq", terms)
+            sets, atoms = {UNIVERSE}, set()
+            A.collect_sets(printed, sets, atoms)
+            A.collect_sets(target, sets, atoms)
+            al = A.Alphabet(sets, atoms)
+            b = A.Builder(al)
+            w = b.dfa_of(printed).minus(b.dfa_of(target)).shortest()
+            res.oblige(1, w is None)
+            if w is not None:
+                res.add(Finding("R04-8", key, "%s can print the declaration %r, which production XMLDecl does not derive (pseudo-attributes out "
+                                "of order or malformed): the output is not well-formed" % (f["path"], al.render(w)), f["file"], f["line"], {}))
+    if st["paths"] < 8:
+        raise BrokenCheck("R04-8: %d declaration paths (floor 8)" % st["paths"])
+
+
 def run(facts, tier):
     res = Result("C04")
     res.explanation = (
@@ -616,6 +682,7 @@ def run(facts, tier):
     r04_5(facts, res)
     structural_eq(facts, res, "R04-6")
     r04_7(facts, res)
+    r04_8(facts, res)
     # ---- R04-3
     st3 = res.rule("R04-3", instances=0)
     for ty in ITEM_TYPES:
